@@ -32,7 +32,7 @@ META = {
                     "bounded recovery as in C07 (12 rounds)"],
 }
 REQUIRED_ORACLES = ["counter-agreement", "continuity", "no-number-reuse", "no-spurious-resend", "kill-points"]
-REQUIRED_COUNTERS = ["receivers_stopped_while_their_handler_was_suspended", "original_transmissions_with_explicit_possdup_n"]
+REQUIRED_COUNTERS = ["receivers_stopped_while_their_handler_was_suspended", "original_transmissions_with_explicit_possdup_n", "sends_cut_by_a_lost_connection"]
 NSHARDS = 16
 NHIST = {"quick": 10, "thorough": 150}
 KILL_STRIDE = {"quick": 2, "thorough": 1}
@@ -138,6 +138,7 @@ class Sess:
 
     explicit_n = 0
     slow_stops = 0
+    sends_cut_by_a_lost_connection = 0
 
     async def send(self, side, prefix=""):
         from asyncfix import FIXMessage
@@ -255,6 +256,8 @@ def gen_history(rnd):
             steps.append(("send_stop", rnd.choice("IA")))     # the receiver's application closes the session inside on_message
         elif r < 0.06:
             steps.append(("send_slow_stop", rnd.choice("IA")))    # the receiver is stopped (tasks cancelled) while its handler is still awaiting
+        elif r < 0.10:
+            steps.append(("send_dying", rnd.choice("IA")))        # the connection is lost exactly under the drain() of a send
         elif r < 0.34:
             steps.append(("send", rnd.choice("IA")))
         elif r < 0.7:
@@ -344,6 +347,18 @@ async def do_step(s, st):
         await w.break_("eof", "eof")
         s.trace.append("break")
         await recover_link(s)
+    elif k == "send_dying":
+        # the connection is lost exactly under a send: write() took the bytes, drain() raises.  Whether the peer got them nobody knows;
+        # the number is spent either way
+        if w.link is not None and w.link.up and not s.ctl.dead:
+            w.drain_once[st[1]] = ConnectionResetError("Connection lost")
+            ident, r = await s.send(st[1])
+            w.drain_once[st[1]] = None
+            s.sends_cut_by_a_lost_connection += 1 if r.startswith("open") else 0
+            s.trace.append(f"send_dying{st[1]}:{ident}:{r}")
+            if not s.ctl.dead:
+                await w.break_("eof", "eof")
+                await recover_link(s)
 
 
 async def recover_link(s):
@@ -442,6 +457,7 @@ def end_oracle(acc, s, how, cid, restart_info):
            "swallowed_I": sorted(set(w.ep["I"].vf_log.exceptions))[-4:], "swallowed_A": sorted(set(w.ep["A"].vf_log.exceptions))[-4:],
            "logon_errors": s.logon_errors}
     acc.add("receivers_stopped_while_their_handler_was_suspended", s.slow_stops)
+    acc.add("sends_cut_by_a_lost_connection", s.sends_cut_by_a_lost_connection)
     acc.add("original_transmissions_with_explicit_possdup_n", s.explicit_n)
     # (3) no reuse of an outbound number for a different message
     acc.oracle("no-number-reuse")
